@@ -277,4 +277,52 @@ theorem runC_inv (p : Policy) (N : Nat) (hp : ∀ m, p.attempt m = decide (m ≤
     · rw [h1]; exact h
     · rw [h1]; exact inv_step p N hp c0 e c.m a' h
 
+/-! ### the consistency level under concurrent executions -/
+
+theorem runK_c (pol : Option Policy) (derived : Bool) :
+    ∀ (sched : List ActC) (k : MK), (runK pol derived k sched).c = runC pol derived k.c sched
+  | [], _ => rfl
+  | a :: sched, k => by
+    simp only [runK, runC, List.foldl_cons]
+    exact runK_c pol derived sched (stepK pol derived k a)
+
+/-- a level the statement can have: its own, or one the policy sets -/
+def Level (pol : Option Policy) (cons0 x : Nat) : Prop := x = cons0 ∨ ∃ p n, pol = some p ∧ p.newCons n = some x
+
+theorem consAfter_level (pol : Option Policy) (derived : Bool) (cons0 : Nat) (k : MK) (a : ActC)
+    (h : Level pol cons0 k.cons) : Level pol cons0 (consAfter pol derived k a) := by
+  unfold consAfter
+  split
+  · rename_i _ _ i p _
+    split
+    · split
+      · cases hn : p.newCons k.c.m.cnt with
+        | none => simpa using h
+        | some x => exact Or.inr ⟨p, _, rfl, by simpa using hn⟩
+      · exact h
+    · exact h
+  · exact h
+
+theorem stepK_level (pol : Option Policy) (derived : Bool) (cons0 : Nat) (k : MK) (a : ActC)
+    (h : Level pol cons0 k.cons ∧ ∀ x ∈ k.reqCons, Level pol cons0 x) :
+    Level pol cons0 (stepK pol derived k a).cons ∧ ∀ x ∈ (stepK pol derived k a).reqCons, Level pol cons0 x := by
+  have h1 := consAfter_level pol derived cons0 k a h.1
+  refine ⟨h1, ?_⟩
+  intro x hx
+  simp only [stepK] at hx
+  split at hx
+  · rcases List.mem_cons.mp hx with e | e
+    · rw [e]; exact h1
+    · exact h.2 x e
+  · exact h.2 x hx
+
+theorem runK_level (pol : Option Policy) (derived : Bool) (cons0 : Nat) :
+    ∀ (sched : List ActC) (k : MK), (Level pol cons0 k.cons ∧ ∀ x ∈ k.reqCons, Level pol cons0 x) →
+      Level pol cons0 (runK pol derived k sched).cons ∧ ∀ x ∈ (runK pol derived k sched).reqCons, Level pol cons0 x
+  | [], _, h => h
+  | a :: sched, k, h => by
+    simp only [runK, List.foldl_cons]
+    exact runK_level pol derived cons0 sched _ (stepK_level pol derived cons0 k a h)
+
+
 end ExecutorConc
